@@ -62,6 +62,10 @@ class Plane:
 
         if mask is None:
             mask = np.copy(self._amplitude)
+            if mask.ndim == 0 and mask != 0 and self._opd.ndim > 1:
+                # a scalar amplitude with a sampled OPD: the plane has the
+                # shape of its OPD
+                mask = np.full(self._opd.shape, mask)
         else:
             # never write into the caller's array
             mask = np.array(mask)
